@@ -15,7 +15,8 @@ SPEC = {"module": "models.ormmodel", "profile": "handwritten", "order": [], "cla
     {"name": "Port", "parent": None, "fields": [f("uid", "int"), f("shape", "opt_ref", "ShapeBase")]},
     {"name": "ShapeBase", "parent": None, "fields": [f("uid", "int"), f("name", "str"), f("ports", "list_ref", "Port")]},
     {"name": "Circle", "parent": "ShapeBase", "fields": [f("r", "float"), f("center", "opt_ref", "Vec")]},
+    {"name": "Sheet", "parent": None, "fields": [f("uid", "int"), f("shapes", "list_ref", "ShapeBase")]},
 ]}
 SPEC["order"] = [c["name"] for c in SPEC["classes"]]
 # references to an alternatively mapped class that takes part in reference cycles (listed finding of C04/C05)
-SPEC["alt_cycle_fields"] = ["pin", "shape"]
+SPEC["alt_cycle_fields"] = ["pin", "shape", "shapes"]
